@@ -1823,7 +1823,7 @@ struct Stats {
     nontrivial: HashSet<u64>,
     samples: Vec<String>,
     disagreements: Vec<Disagreement>,
-    seen_inputs: HashSet<Vec<String>>,
+    seen_inputs: HashSet<(&'static str, Vec<String>)>,
     errors: Vec<String>,
 }
 
@@ -1887,7 +1887,7 @@ impl Worker<'_> {
                 return Ok(());
             }
             let d = self.session.shrink(ops, kind)?;
-            if self.local.seen_inputs.insert(d.input.clone()) {
+            if self.local.seen_inputs.insert((d.kind, d.input.clone())) {
                 self.found += 1;
                 self.local.disagreements.push(d);
             }
@@ -2027,7 +2027,7 @@ impl Worker<'_> {
             g.samples.extend(self.local.samples);
         }
         for d in self.local.disagreements {
-            if g.seen_inputs.insert(d.input.clone()) {
+            if g.seen_inputs.insert((d.kind, d.input.clone())) {
                 g.disagreements.push(d);
             }
         }
